@@ -209,7 +209,9 @@ def oracle(rev, a, b, s, brk):
 
 
 def range_len(a, b, s):
-    return len(range(a, b, s))
+    if s > 0:
+        return (b - a - 1) // s + 1 if a < b else 0
+    return (a - b - 1) // (-s) + 1 if b < a else 0
 
 
 def leaves_type(kind, w, sg, cw, csg, a, b, s):
@@ -510,7 +512,9 @@ def run(ctx):
                 mq.append("pyfor %d %d %d %d %d" % (1 if k == "revc" else 0, c["a"], c["b"], c["s"] or 1, c["brk"]))
     mres = model.batch(mq)
     mi = 0
-    nbad = 0
+    nbad = {}
+    if crashes:
+        ctx.note("calls that killed the process (recorded as CRASH outcomes): %s" % ([(jobs[j][1], jobs[j][2][i], rc) for j, i, rc in crashes[:10]],))
     for (mod, fn, argl), cases, res in zip(jobs, metas, results):
         for args, c, got_raw in zip(argl, cases, res):
             m = mres[mi]; mi += 1
@@ -537,8 +541,8 @@ def run(ctx):
                 ok = got == exp
             else:
                 ok = got[0] != "exc" and (list(got[0]), got[1], bool(got[2])) == (exp[0], exp[1], exp[2])
-            if not ok and nbad < 400:
-                nbad += 1
+            if not ok and nbad.get(classify(c), 0) < 300:
+                nbad[classify(c)] = nbad.get(classify(c), 0) + 1
                 ctx.fail(classify(c), dict(inp, **{x: c[x] for x in ("kind", "a", "b", "s")}), _short(got), _short(exp),
                          note="model says %s" % m[:200])
             # ---- tie: model vs implementation
@@ -565,7 +569,7 @@ def _check_enum(ctx, inp, c, got, m):
             break
     else:
         ran_else = True
-    n = len(range(a, b, s))
+    n = range_len(a, b, s)
     if c["kw"]:
         lo, hi = rng_of(c["kw"], c["ksg"])
         if not (lo <= st <= hi):
